@@ -4,6 +4,6 @@ f="$1"; n="$2"
 cd /verif/coq
 tmp="_run/show_$$.v"; mkdir -p _run
 head -n $((n-1)) "$f" > "$tmp"
-echo "Show. Abort All." >> "$tmp"
+printf '\nShow.\nAbort All.\n' >> "$tmp"
 timeout 300 coqc -Q . BobV -w -all "$tmp" 2>&1 | tail -${3:-40}
 rm -f _run/show_$$.* _run/.show_$$.*
